@@ -606,11 +606,13 @@ def _asend_referents():
     other = [i for i, r in enumerate(refs) if r is a2]
     th = a1.athrow(ValueError)
     trefs = _gc.get_referents(th)
-    res = {"asend_own_index": own, "asend_sent_value_index": other, "asend_n": len(refs), "athrow_own_index": [i for i, r in enumerate(trefs) if r is a1]}
+    ac = a1.aclose()
+    res = {"asend_own_index": own, "asend_sent_value_index": other, "asend_n": len(refs), "athrow_own_index": [i for i, r in enumerate(trefs) if r is a1],
+           "asend_type": type(aw).__name__, "athrow_type": type(th).__name__, "aclose_type": type(ac).__name__, "anext_type": type(a1.__anext__()).__name__}
     import warnings as _w
     with _w.catch_warnings():
         _w.simplefilter("ignore")
-        del aw, th
+        del aw, th, ac
     return res
 
 out["asend_referents"] = _asend_referents()
